@@ -5,6 +5,7 @@ mod d2;
 mod d3;
 mod d4;
 mod d5;
+mod d7;
 mod d5gen;
 mod nor;
 mod util;
@@ -51,6 +52,7 @@ fn main() {
         Some("consts") => consts::run(),
         Some("d3") => run("d3", &d3::gen, &mut d3::exec),
         Some("d2") => run("d2", &d2::gen, &mut d2::exec),
+        Some("d7") => run("d7", &d7::gen, &mut d7::exec),
         Some("d4") => {
             let mut ex = d4::Exec::new();
             run("d4", &d4::gen, &mut |l, o| ex.line(l, o))
